@@ -570,10 +570,13 @@ func c12CheckSample(xs []float64) string {
 		return fmt.Sprintf("Mean(%v) = %v outside [min,max]", xs, got)
 	}
 	wv := ratF64(ratVar(xs))
-	if got := s.Variance(); !(math.Abs(got-wv) <= 8*(n+2)*ulp*scale*scale) || got < 0 {
+	// (a variance too large for a float64 is +Inf on both sides: equal, though their difference is NaN; the
+	// tolerance scale² may itself be +Inf, which then accepts any finite value — the mean and the bounds above are
+	// what such samples are about)
+	if got := s.Variance(); (got != wv && !(math.Abs(got-wv) <= 8*(n+2)*ulp*scale*scale)) || got < 0 {
 		return fmt.Sprintf("Variance(%v) = %v, exact %v", xs, got, wv)
 	}
-	if got := s.StdDev(); !(math.Abs(got*got-wv) <= 16*(n+2)*ulp*scale*scale) {
+	if got := s.StdDev(); got*got != wv && !(math.Abs(got*got-wv) <= 16*(n+2)*ulp*scale*scale) {
 		return fmt.Sprintf("StdDev(%v)² = %v, exact variance %v", xs, got*got, wv)
 	}
 	// geometric mean
@@ -701,7 +704,7 @@ func c12Samples(c *mc.Check, maxLen int) {
 	// small-then-large, and interleaved: their running product leaves the normal float range (into the subnormals,
 	// to zero, or to +Inf) although their geometric mean is unremarkable
 	for _, n := range []int{7, 10, 33, 40, 45, 46, 47, 48, 50, 92, 100, 299, 300} {
-		for _, kind := range []int{0, 1, 2, 3, 4, 5, 6, 7} {
+		for _, kind := range []int{0, 1, 2, 3, 4, 5, 6, 7, 8, 9} {
 			xs := make([]float64, n)
 			for i := range xs {
 				switch kind {
@@ -728,6 +731,14 @@ func c12Samples(c *mc.Check, maxLen int) {
 						xs[i] = 1.5e-7
 					} else {
 						xs[i] = 2.5e7
+					}
+				case 8:
+					// finite values near the top of the range: their SUM is not representable, their mean is
+					xs[i] = 1e306 * (1 + float64(i%5)/8)
+				case 9:
+					xs[i] = 1.2e308
+					if i%3 == 0 {
+						xs[i] = 1e300
 					}
 				}
 			}
